@@ -783,4 +783,68 @@ theorem profile_max_clamped (n S lo hi tau : ℝ) (hn : 0 < n) (hS : 0 < S) (hlo
       rw [this]
       exact (profile_max n S tau hn hS ht).1
 
+/-! ## the default initial guess -/
+
+theorem sum_map_mul_div (l : List Rat) (c S : Rat) : (l.map fun f => c * f / S).sum = c * l.sum / S := by
+  induction l with
+  | nil => simp
+  | cons x xs ih => simp only [List.map_cons, List.sum_cons, ih]; ring
+
+theorem fractions_sum_pos : ∀ n : Nat, 0 < (((List.range (n + 1)).map fun k => ((k + 1 : Nat) : Rat))).sum
+  | 0 => by simp
+  | n + 1 => by
+    rw [List.range_succ, List.map_append, List.sum_append]
+    have := fractions_sum_pos n
+    have h2 : (0 : Rat) < ((n + 1 + 1 : Nat) : Rat) := by exact_mod_cast Nat.succ_pos _
+    simp only [List.map_cons, List.map_nil, List.sum_cons, List.sum_nil, add_zero]
+    linarith
+
+theorem defaultGuess_spec' (n : Nat) (hn : 1 ≤ n) (m : Rat) :
+    (defaultGuess n m).length = 2 * n
+    ∧ ((defaultGuess n m).take n).sum = 1
+    ∧ ((defaultGuess n m).drop n).sum / (n : Rat) = m := by
+  obtain ⟨k, rfl⟩ : ∃ k, n = k + 1 := ⟨n - 1, by omega⟩
+  have hS := fractions_sum_pos k
+  have hn0 : ((k + 1 : Nat) : Rat) ≠ 0 := by exact_mod_cast Nat.succ_ne_zero k
+  unfold defaultGuess
+  simp only
+  refine ⟨by simp; omega, ?_, ?_⟩
+  · rw [List.take_left' (by simp)]
+    rw [List.sum_replicate, nsmul_eq_mul]
+    field_simp
+  · rw [List.drop_left' (by simp), sum_map_mul_div]
+    have := hS.ne'
+    field_simp
+
+theorem ampSum_all_free : ∀ (n : Nat) (ps : List Rat) (k : Nat), ampSum n ps (List.replicate k false) = 0
+  | 0, _, _ => by simp [ampSum]
+  | _ + 1, [], _ => by simp [ampSum]
+  | _ + 1, _ :: _, 0 => by simp [ampSum]
+  | n + 1, p :: ps, k + 1 => by
+    simp only [List.replicate_succ, ampSum, Bool.false_eq_true, if_false, zero_add]
+    exact ampSum_all_free n ps k
+
+theorem countTrue_all : ∀ (n k : Nat), n ≤ k → countTrue n (List.replicate k true) = n
+  | 0, _, _ => by simp [countTrue]
+  | n + 1, 0, h => by omega
+  | n + 1, k + 1, h => by
+    simp only [List.replicate_succ, countTrue, if_true]
+    rw [countTrue_all n k (by omega)]; omega
+
+/-- the default guess is always accepted by `_handle_amplitude_constraint` when no parameter is fixed -/
+theorem default_guess_accepted' (n : Nat) (hn : 1 ≤ n) (m : Rat) :
+    (handleConstraint n (defaultGuess n m) none).isSome = true := by
+  obtain ⟨hlen, _, _⟩ := defaultGuess_spec' n hn m
+  unfold handleConstraint
+  simp only [fixedOf, List.length_replicate, ne_eq, not_true_eq_false, if_false, hlen, ampSum_all_free,
+    List.map_replicate, Bool.not_false, countTrue_all n (2 * n) (by omega)]
+  have h01 : ¬ ((1 : Rat) < 0) := by norm_num
+  simp only [h01, if_false]
+  by_cases h1 : n = 1
+  · subst h1
+    have : allcloseOne 1 = true := by decide +kernel
+    simp [this]
+  · have h0 : n ≠ 0 := by omega
+    simp [h1, h0]
+
 end Verif.C15
